@@ -1,11 +1,11 @@
 (* C17 -- Custody: guarded funds leave only with the required approvals.
    Only statements, each closed by [exact] of a lemma of Proofs/Custody.v, with its assumptions.
    The model (Model/Custody.v) is the ante decorator's custody part followed by the sixteen custody
-   handlers and the two bank send paths; it is parameterised by a [variant] (five repaired places, one
-   bit each; patches under /verif/fixes/C17-*.patch) and tied to /repo on every run by the differential
+   handlers, the two bank send paths and the address rotation of x/recovery; it is parameterised by a
+   [variant] (six repaired places, one bit each; patches under /verif/fixes/C17-*.patch) and tied to /repo on every run by the differential
    run of harness/cmd/c17 (model of the probed variant = real code, step by step).
    [H] is sha256+hex (nothing assumed), [minrew] the network property MinCustodyReward. *)
-From Sekai Require Import Base.Prelude Model.Custody Model.C17Check Proofs.Custody.
+From Sekai Require Import Base.Prelude Model.Custody Model.C17Check Proofs.Custody Proofs.CustodyVariants Proofs.CustodyRelease.
 
 (* ================================================================ clauses that hold on EVERY variant *)
 
@@ -66,7 +66,7 @@ Print Assumptions C17_chk_bank_sound.
    approval or decline with the same key changes anything, whatever happened in between.  The key is the
    hash as written, or (variant with C17-vote-key-lowercase) the lower-cased hash: every spelling *)
 Theorem C17_vote_counts_once_per_address :
-  forall v H minrew s f t h h' ops,
+  forall v, v_rot v = false -> forall H minrew s f t h h' ops,
   let s1 := exec v H minrew s (OApprove f t h) in
   s1 <> s -> mark_key v h' = mark_key v h ->
   let s2 := run v H minrew s1 ops in
@@ -74,17 +74,19 @@ Theorem C17_vote_counts_once_per_address :
 Proof. exact vote_counts_once. Qed.
 Print Assumptions C17_vote_counts_once_per_address.
 
-(* the vote store only grows: a mark is never removed or rewritten by any transaction *)
+(* the vote store only grows: a mark is never removed or rewritten by any transaction (the repaired address
+   rotation re-keys the marks of the rotated account: there the checker-level theorems below apply) *)
 Theorem C17_vote_marks_persist :
-  forall v H minrew ops s f t h x,
+  forall v, v_rot v = false -> forall H minrew ops s f t h x,
   mark_get f t h (marks s) = Some x -> mark_get f t h (marks (run v H minrew s ops)) = Some x.
 Proof. exact marks_mono_run. Qed.
 Print Assumptions C17_vote_marks_persist.
 
-(* coins never leave an account in a transaction in which it is not the payer (the target of an approval /
-   decline / confirmation, the signer of a send): the checker's outflow clause never fires *)
+(* coins never leave an account in a transaction in which it is not a payer (the target of a vote, the
+   requester of the pending transfer that is paid out, the signer of a send, the two ends of an address
+   rotation): the checker's outflow clause never fires *)
 Theorem C17_no_outflow_from_bystanders :
-  forall v H minrew s o s' x, step v H minrew s o = Ok s' -> payer o <> Some x ->
+  forall v H minrew s o s' x, step v H minrew s o = Ok s' -> ~ In x (payers s o) ->
   forall d, bal_get d (a_bal (getA s x)) <= bal_get d (a_bal (getA s' x)).
 Proof. exact step_nondec. Qed.
 Print Assumptions C17_no_outflow_from_bystanders.
@@ -189,8 +191,9 @@ Proof. exact vote_counts_once_per_transfer_refuted. Qed.
 Print Assumptions C17_vote_counts_once_per_transfer_refuted.
 
 (* ================================================================ soundness of the WHOLE spec checker on the repaired variants:
-   over every history from the initial state, whatever the checker reports is one of the design-level
-   clauses (key:..., multi-send / custody send not covered by block, whitelist and limits) *)
+   over every history from the initial state (settings edits, sends of every kind, address rotations),
+   whatever the checker reports is one of the design-level clauses (key:..., multi-send / custody send not
+   covered by block, whitelist and limits) or a vote clause of an account touched by a rotation *)
 Theorem C17_chk_sound_repaired :
   forall v, v_cust_only v = true -> v_lower v = true -> v_pwd v = true ->
   forall H minrew bals ops c, In c (model_clauses v H minrew bals ops) -> residual c = true.
@@ -230,3 +233,75 @@ Example C17_limits_window :
   /\ is_ok (step v_fixed Hid 200 (w_run v_fixed (firstn 4 w_limits)) (OBank 0 5 [(0, 1)] 1700000020)) = false
   /\ is_panic (step v_tree0 Hid 200 (w_run v_tree0 (firstn 2 w_limits)) (OBank 0 5 [(0, 600)] 1700000000)) = true.
 Proof. exact limits_window_example. Qed.
+
+(* ================================================================ the release theorem at full strength (repaired variants), over every history:
+   settings edits, custodian list edits, sends of every kind and address rotations included.
+   [run_steps] are the accepted steps of the model's history with the checker's own log before each;
+   [approve_log] is the log after an accepted approval. *)
+
+(* a pooled transfer leaves the pool at an approval only when the configured share of the account's custodians
+   is on record for it, the password (when in use) was confirmed with the password of the request, and the
+   record holds every (custodian, account, transfer) at most once *)
+Theorem C17_release_at_approval :
+  forall v, v_cust_only v = true -> v_lower v = true -> v_pwd v = true ->
+  forall H minrew bals ops lg a s1 s2 f t hraw tx,
+  In (lg, a, s1, s2, OApprove f t hraw) (run_steps v H minrew bals ops) ->
+  released s1 s2 t (to_lower hraw) = Some tx -> rotated lg t = false ->
+  let lg1 := approve_log lg s1 s2 f t hraw in
+  let T := getA s1 t in
+  (guarded T = true -> 0 < n_cust T -> forall st, a_set T = Some st ->
+     s_mode st * n_cust T <= count_appr t (to_lower hraw) (l_appr lg1) * 100)
+  /\ (flag s_pwd T = true -> in2 t (to_lower hraw) (l_conf lg1) = true)
+  /\ log_distinct lg1.
+Proof. exact release_at_approval. Qed.
+Print Assumptions C17_release_at_approval.
+
+(* ... and at a password confirmation only with the password of the request and the same share on record *)
+Theorem C17_release_at_confirmation :
+  forall v, v_cust_only v = true -> v_lower v = true -> v_pwd v = true ->
+  forall H minrew bals ops lg a s1 s2 f t hraw p ph tx,
+  In (lg, a, s1, s2, OConfirm f t hraw p ph) (run_steps v H minrew bals ops) ->
+  released s1 s2 t (to_lower hraw) = Some tx -> rotated lg t = false ->
+  let T := getA s1 t in
+  (p = t_pw tx \/ ph = t_pw tx)
+  /\ (guarded T = true -> 0 < n_cust T -> forall st, a_set T = Some st ->
+        s_mode st * n_cust T <= count_appr t (to_lower hraw) (l_appr lg) * 100).
+Proof. exact release_at_confirmation. Qed.
+Print Assumptions C17_release_at_confirmation.
+
+(* exactly once: a vote or a confirmation takes no more than the voter's reward out of the requesting account
+   unless the transfer leaves the pool in that very step; a decline never takes a transfer out of the pool *)
+Theorem C17_payout_takes_transfer_out_of_pool :
+  forall v, v_cust_only v = true -> v_lower v = true -> v_pwd v = true ->
+  forall H minrew bals ops lg a s1 s2 o t hraw,
+  In (lg, a, s1, s2, o) (run_steps v H minrew bals ops) ->
+  (exists f, o = OApprove f t hraw) \/ (exists f, o = ODecline f t hraw) \/ (exists f p ph, o = OConfirm f t hraw p ph) ->
+  paid_without_release s1 s2 t (to_lower hraw) = false
+  /\ ((exists f, o = ODecline f t hraw) -> released s1 s2 t (to_lower hraw) = None).
+Proof. exact payout_takes_transfer_out_of_pool. Qed.
+Print Assumptions C17_payout_takes_transfer_out_of_pool.
+
+(* the checker judges every accepted step of every history of the model: nothing but residual clauses *)
+Theorem C17_chk_accepts_every_model_step :
+  forall v, v_cust_only v = true -> v_lower v = true -> v_pwd v = true ->
+  forall H minrew bals ops lg a s1 s2 o c,
+  In (lg, a, s1, s2, o) (run_steps v H minrew bals ops) ->
+  In c (fst (step_clauses (List.length bals) lg a s1 s2 o)) -> residual c = true.
+Proof. exact run_step_clauses_residual. Qed.
+Print Assumptions C17_chk_accepts_every_model_step.
+
+(* the checker's record is well formed on EVERY trace, real or model: distinct entries ... *)
+Theorem C17_log_distinct :
+  forall tr n lg id0 a0 s, log_distinct lg ->
+  (forall lg' a s1 s2 o, In (lg', a, s1, s2, o) (acc_steps n lg id0 a0 s tr) -> log_distinct lg' /\ log_distinct (snd (step_clauses n lg' a s1 s2 o)))
+  /\ log_distinct (final_log n lg id0 a0 s tr).
+Proof. exact log_distinct_steps. Qed.
+Print Assumptions C17_log_distinct.
+
+(* ... each of which is an accepted approval of a custodian listed at that moment whose vote the store recorded *)
+Theorem C17_log_entries_witnessed :
+  forall tr n lg id0 a0 s e,
+  In e (l_appr (final_log n lg id0 a0 s tr)) -> rotated (final_log n lg id0 a0 s tr) (snd (fst e)) = false ->
+  In e (l_appr lg) \/ witnessed (acc_steps n lg id0 a0 s tr) e.
+Proof. exact log_entries_witnessed. Qed.
+Print Assumptions C17_log_entries_witnessed.
